@@ -34,10 +34,10 @@ CHECKS = {
          "For every slice length up to the bound, every size 0..=len+1 (0 must panic), element types incl. a ZST and a Drop type, the eight iterator kinds in forward, rev() and rev().rev() form: every sequence of front/back steps until both ends report None, children made from copy(); items, as_slice() and remainder() compared with std by address and length at every node.",
          "3/C08"),
  "C09": ("explicit-state graph search with hooked canonical states: every (start,end) pair of the 8-bit types is a state of each range iterator type and both transitions are compared with std on the abstraction (complete bisimulation); boundary closures for wider types; hook-independent history trees",
-         "u8/i8: all 65536 (start,end) pairs x 4 iterator types x {next,next_back} with the post-state read through the __verif_bounds hook and compared with the std range built from the abstract state - closed under both transitions, hence every interleaving on every 8-bit range; wider integers and char: closure from MIN/MAX/0/surrogate-gap neighbourhoods to a depth bound; RangeFrom from every start; for_each!/eval!/for_range!/collect_const! over all 8-bit pairs; plus value-only history trees that do not rely on the hook.",
+         "u8/i8: all 65536 (start,end) pairs x 4 iterator types x {next,next_back} with the post-state read through the __verif_bounds hook and compared with the std range built from the abstract state - closed under both transitions, hence every interleaving on every 8-bit range; wider integers and char: closure from MIN/MAX/0/surrogate-gap neighbourhoods to a depth bound; RangeFrom from every start; for_each!/eval!/for_range!/collect_const! over all 8-bit pairs; plus value-only history trees that do not rely on the hook. The range is also driven as an adapter argument (zip argument, flat_map body) in forward and reversed chains over all 8-bit pairs.",
          "3/C09"),
  "C12": ("bounded exhaustive input enumeration (every value of the 8/16-bit types, all short strings over a digit/sign/letter alphabet, MIN/MAX neighbourhoods per type) against str::parse and a big-integer prefix model",
-         "Whole-string parse_* against str::parse (leading '+' rejected), prefix parsing through Parser::parse_* and parse_with! against an optional-minus + longest-digit-run model with checked 128-bit accumulation, for all 12 integer types and bool, with every suffix from a small set; remainder by address, offsets, error kind and error offset checked.",
+         "Whole-string parse_* against str::parse (leading '+' rejected), prefix parsing through Parser::parse_* and parse_with! against an optional-minus + longest-digit-run model with checked 128-bit accumulation, for all 12 integer types and bool, with every suffix from a small set; remainder by address, offsets, error kind and error offset checked. The alphabet contains the ASCII neighbours of the digit range, and every ASCII char is placed in every position of short digit templates.",
          "3/C12"),
  "C13": ("explicit-state graph search to a fixed point over all reachable Parser states per input (every operation from every state; operations only shrink the remainder, so the closure covers sequences of any length), state invariant checked in every state",
          "For every input up to the bound and three constructors, BFS over the states (start_offset, end_offset, one-shot flag, direction) under ~80 operations to closure, with shortest traces: in every reached state the remainder must be, by address, original[start..end] with both offsets on char boundaries; every Err must carry the pre-state's start (from-start ops) or end (from-end ops) offset and name that end. A labelled random-walk supplement on long inputs is reported separately.",
@@ -49,22 +49,22 @@ CHECKS = {
          "Every chain of the 20 adapter instances up to the depth bound over 8 sources (slices, ranges, slice iterators, string::chars/split, nested slices) x for_each!/14 eval! consumers/collect_const!, each executed on every input array over a small alphabet up to the length bound and compared with the same std chain (enumerate as EnumInOrder, rposition as rev().position()); unexpected rejections by rustc are violations; the known deviation (order-sensitive adapter before a reversal) is matched behaviourally against the reverse-hoisted model and reported as KNOWN-FINDING F7.",
          "3/C10"),
  "C11": ("program-space exploration of array-macro invocations x closure behaviours (every early-exit kind at every element) plus exhaustive operation histories on ArrayBuilder with a reference model",
-         "array::map!/map_!/from_fn!/from_fn_!/collect_const! for every length up to the bound, element types, parameter forms and closure behaviours (well-behaved or break/continue/return/?/labelled break/continue/panic at each element): well-behaved programs must equal std, hostile ones must not yield any array other than std's; ArrayBuilder: every push/build/clone/drop history up to depth N+4 incl. over- and under-filling against a vec model.",
+         "array::map!/map_!/from_fn!/from_fn_!/collect_const! for every length up to the bound, element types, parameter forms and closure behaviours (well-behaved or break/continue/return/?/labelled break/continue/panic at each element): well-behaved programs must equal std, hostile ones must not yield any array other than std's; ArrayBuilder: every push/build/clone/drop history up to depth N+4 incl. over- and under-filling against a vec model. collect_const! = Iterator::collect on all chains of up to 2 direction-sensitive adapters and every 3-chain containing rev() (const context, 4 inputs); F7-shaped disagreements are the known finding only if they equal the reverse-hoisted model.",
          "3/C11"),
  "C15": ("exhaustive exploration by re-execution of every operation history on ArrayConsumer/ArrayBuilder over a drop-tracking element type with a ledger; program-space exploration of every destructure! pattern shape",
-         "Every next/next_back/drop/assert_is_empty/clone history (two live objects, start from new() or empty()) up to depth N+4 for N<=4 with as_slice checked and as_mut_slice written after every step: the ledger must show each element handed out or dropped exactly once, in order, payload intact; map_!/from_fn_! with a closure panicking at each element; destructure! over braced/tuple structs, tuples of arity 1..=16, arrays with every prefix/rest/suffix split, `_`, `..`, packed and generic/ZST fields, checking bound values, immediate drops and the final ledger.",
+         "Every next/next_back/drop/assert_is_empty/clone history (two live objects, start from new() or empty()) up to depth N+4 for N<=4 with as_slice checked and as_mut_slice written after every step: the ledger must show each element handed out or dropped exactly once, in order, payload intact; map_!/from_fn_! with a closure panicking at each element; destructure! over braced/tuple structs, tuples of arity 1..=16, arrays with every prefix/rest/suffix split, `_`, `..`, packed and generic/ZST fields, checking bound values, immediate drops and the final ledger. The same histories and destructure! shapes are repeated over a zero-sized element type with a destructor (counter ledger).",
          "3/C15"),
  "C19": ("program-space exploration: every option::/result:: macro x argument form x every small input, try_!/try_opt!, rebind macros for every arity 1..=6 x position kinds, min/max family on all pairs of keyed values, each next to its std counterpart",
-         "Each macro and accepted argument form (closure, function path) on every value of its small input set with value and fallback-call-count compared with std; try_rebind!/rebind_if_ok! for arities 1..=6 (all kind assignments up to arity 3, uniform and single-position variations above, places that alias or depend on earlier components), rejections by rustc count as violations; min!/max!/_by/_by_key on all ordered pairs of (key,id) values.",
+         "Each macro and accepted argument form (closure, function path) on every value of its small input set with value and fallback-call-count compared with std; try_rebind!/rebind_if_ok! for arities 1..=6 (all kind assignments up to arity 3, uniform and single-position variations above, places that alias or depend on earlier components), rejections by rustc count as violations; min!/max!/_by/_by_key on all ordered pairs of (key,id) values. Unparenthesised single-target rebind forms and whole-pattern annotations are included; min/max operands are also given as expressions whose evaluation is counted (exactly once each).",
          "3/C19"),
  "C20": ("program-space exploration of constant argument lists for str_concat!/str_join!/from_iter!/slice_concat! evaluated at compile time, plus exhaustive byte strings for the CStr functions, against std",
          "All lists of 0..=3 pieces over an alphabet with multi-byte strings/chars x all separators x three argument forms, each evaluated by rustc in its own const and compared with concat/join/collect at run time; CStr constructors and conversions on all byte strings up to length 6 over {0,'a',C3,B1,FF} against core::ffi::CStr (success agreement, equal CStr, bytes by address).",
          "3/C20"),
  "C01": ("three monitors over the bounded explorations of the other properties: the Miri interpreter on the reduced-bound explorers (one interpreter process per engine), rustc's const evaluator on a battery of const-fn drivers, and a native sub-range/UTF-8 oracle on every returned slice/str",
-         "Run-time UB: every explorer of C02-C09, C15, C20 (thorough: also C12, C13, C16) plus a driver for maybe_uninit/manually_drop/ptr/nonnull/array macros/destructure!/DSL macros executed under Miri at an interpreter-sized bound; compile-time UB: const-fn drivers that loop over small alphabets through every unsafe-backed safe function and macro form inside `const` items (error[E0080] = violation); location/UTF-8: every non-empty result of the string engines must lie inside its argument on char boundaries. Coverage of `unsafe` sites is bound by harness/unsafe_sites.json (unmapped files are reported).",
+         "Run-time UB: every explorer of C02-C09, C15, C20 (thorough: also C12, C13, C16) plus a driver for maybe_uninit/manually_drop/ptr/nonnull/array macros/destructure!/DSL macros executed under Miri at an interpreter-sized bound; compile-time UB: const-fn drivers that loop over small alphabets through every unsafe-backed safe function and macro form inside `const` items (error[E0080] = violation); location/UTF-8: every non-empty result of the string engines must lie inside its argument on char boundaries. Coverage of `unsafe` sites is bound by harness/unsafe_sites.json (unmapped files are reported). The native stage also re-runs the C07 exploration with a valid-char oracle (every yielded char must be a Unicode scalar value).",
          "3/C01"),
  "C17": ("program-space exploration, compile-only: one generated program per (guard x syntactic shape) and a minimally different control, decided by rustc through cargo check --keep-going --message-format=json",
-         "About 240 generated bin targets: every misuse listed in the property (destructure! on Drop types, references, wrong counts, `..`; DSL double reversal, unsupported methods, arguments to argument-less methods; parser_method! non-literal patterns, missing/extra default branch) in every syntactic shape the macro accepts, each with a control that differs only by the offending element; invalid must be rejected, control must compile; diagnostics are recorded, not matched.",
+         "About 310 generated bin targets: every misuse listed in the property (destructure! on Drop types, references, wrong counts, `..`; DSL double reversal, unsupported methods, arguments to argument-less methods; parser_method! non-literal patterns in every position of the pattern grammar incl. concat! arguments, missing/extra default branch) in every syntactic shape the macro accepts, each with a control that differs only by the offending element; invalid must be rejected, control must compile; diagnostics are recorded, not matched.",
          "3/C17"),
  "C18": ("program-space exploration: generated literal sets x six methods, each program run on all inputs over its own literals; the same literal tokens are decoded by rustc in the reference",
          "Every escape kind alone, embedded and in pairs, line continuations followed by every whitespace class, raw strings with 0-2 hashes, multi-byte text, the empty literal and concat!, plus multi-branch sets with prefix-related literals, for strip_prefix/strip_suffix/find_skip/rfind_skip/trim_start_matches/trim_end_matches; inputs are all strings of up to 3 atoms over the program's literals and a foreign char, from three parser states; branch taken, offsets and remainder (content and address) compared with a reference that uses the same literal tokens as &str expressions.",
